@@ -35,7 +35,8 @@ open SleapVerif.Arch
 /-- encoder filters `int(f · r^k) = f · r^k` for an integer `filters_rate` -/
 theorem scale_int_rate (f r k : Nat) : scale f ⟨r, 1⟩ (k : Int) = f * r ^ k := scale_int f r k
 
-/-- `Model.__init__` head arithmetic, integer rate `r ≥ 1`, `D = down + stem` encoder blocks,
+/-- (Regression record: the arithmetic of the tree before c60aeeb, `headInForAsIs`; HEAD reads the count from
+    the decoder block, `headInFor`.)  `Model.__init__` head arithmetic, integer rate `r ≥ 1`, `D = down + stem` encoder blocks,
     `up ≤ D` decoder blocks: the `in_channels` computed for a head on decoder block `i`
     (`factor = (up-1) - i`, or no multiplication when `i` is the last block) equals that block's
     filters `f · r^(D-1-i)`. -/
@@ -144,8 +145,28 @@ theorem output_spatial (b : Built) (hex : ∀ op ∈ b.enc, op.exactOk = true) (
 
 /-- heads are independent of each other and of their channel count -/
 theorem heads_independent (c : Cfg) (hne : c.heads ≠ [])
-    (h : ∀ hd ∈ c.heads, c.bos ≤ hd.os ∧ ∃ ch, wellFormed { c with heads := [⟨hd.os, ch⟩] } = true) :
+    (h : ∀ hd ∈ c.heads, ∃ ch, wellFormed { c with heads := [⟨hd.os, ch⟩] } = true) :
     wellFormed c = true := wellFormed_of_single c hne h
+
+/-- **The per-head contract is a function of the head's own config entry, not of the position of the
+    entry in the `head_configs` mapping.**  `get_head` reads the entries by name in a fixed order
+    (`getHeads`), so two mappings with the same (distinctly named) entries in a different key order
+    give the same head list — hence the same construction, the same forward result and the same
+    contracted shape for every head name (a bottom-up config may list `pafs` before `confmaps`). -/
+theorem head_contract_order_independent (c : Cfg) (bottomup : Bool) (m₁ m₂ : List (String × Head))
+    (p : m₁.Perm m₂) (nd : m₁.Pairwise fun a b => a.1 ≠ b.1) (fresh : Bool) (h w : Nat) :
+    getHeads bottomup m₁ = getHeads bottomup m₂ ∧
+      run { c with heads := getHeads bottomup m₁ } fresh h w
+        = run { c with heads := getHeads bottomup m₂ } fresh h w ∧
+      contract { c with heads := getHeads bottomup m₁ } h w
+        = contract { c with heads := getHeads bottomup m₂ } h w := by
+  have e : getHeads bottomup m₁ = getHeads bottomup m₂ := by
+    unfold getHeads
+    cases bottomup <;> simp [List.filterMap, lookup_perm _ p nd]
+  rw [e]; exact ⟨rfl, rfl, rfl⟩
+
+example : getHeads true [("pafs", ⟨4, 4⟩), ("confmaps", ⟨2, 3⟩)] = [⟨2, 3⟩, ⟨4, 4⟩]
+    ∧ getHeads true [("confmaps", ⟨2, 3⟩), ("pafs", ⟨4, 4⟩)] = [⟨2, 3⟩, ⟨4, 4⟩] := by decide
 
 /-- `up_interpolate` does not enter the bookkeeping beyond one extra check when it is `False` -/
 theorem up_interpolate_irrelevant (c : Cfg) (h : wellFormed { c with upInterp := false } = true) (u : Bool) :
@@ -395,11 +416,13 @@ theorem arch_middle_block_asIs_counterexample :
       inGrid { witnessMiddleBlockAsIs with fixMid := true, fixWrap := true } = true := by
   decide +kernel
 
-/-- F-C14-wrapper-output-stride (fixed by e4cd03e): same for Swin-T, stem 2, output stride 4. -/
+/-- F-C14-wrapper-output-stride (fixed by e4cd03e): same for Swin-T, stem 2, output stride 4, on the tree as it
+    was then (`runAsIs`: heads sized arithmetically for the last decoder block).  Reading the head's
+    channels from its decoder block (c60aeeb, `run`) also repairs this witness on its own. -/
 theorem arch_wrapper_output_stride_asIs_counterexample :
     docValid witnessWrapperStrideAsIs = true ∧
-      run witnessWrapperStrideAsIs true 32 32 = .err .runtime ∧
-      wellFormed witnessWrapperStrideAsIs = false ∧
+      runAsIs witnessWrapperStrideAsIs true 32 32 = .err .runtime ∧
+      (match run witnessWrapperStrideAsIs true 32 32 with | .ok f => f.outs == [(1, 8, 8)] | .err _ => false) = true ∧
       wellFormed { witnessWrapperStrideAsIs with fixMid := true, fixWrap := true } = true ∧
       inGrid { witnessWrapperStrideAsIs with fixMid := true, fixWrap := true } = true := by
   decide +kernel
@@ -510,22 +533,20 @@ def witnessHeadInChannels : Cfg :=
     cpb := 2, middle := true, upInterp := true, inCh := 1, heads := [⟨16, 3⟩],
     fixMid := true, fixWrap := true }
 
-/-- F-C14-head-in-channels (outside `inGrid`: `filters = 4`): `Model.__init__` re-derives the head's `in_channels` as
-    `int(round(max_channels / r^n) · r^factor)` = 19, the decoder block at stride 16 has `int(4·1.5^4)` = 20
-    filters ⇒ forward raises; reading the count from the decoder block (`constructFixed`,
-    `fixes/C14-head-in-channels.patch`) gives the contracted output. -/
+/-- F-C14-head-in-channels (fixed by c60aeeb; regression record about the tree as it was, `constructAsIs` /
+    `runAsIs`): `Model.__init__` re-derived the head's `in_channels` as `int(round(max_channels / r^n) · r^factor)` = 19,
+    the decoder block at stride 16 has `int(4·1.5^4)` = 20 filters ⇒ forward raised.  HEAD (`construct`, `run`) reads
+    the count from the decoder block and gives the contracted output; the witness now carries the certificate. -/
 theorem arch_head_in_channels_counterexample :
     docValid witnessHeadInChannels = true ∧ supported witnessHeadInChannels = true ∧
-      inGrid witnessHeadInChannels = false ∧
-      run witnessHeadInChannels true 32 32 = .err .runtime ∧
-      (match construct witnessHeadInChannels with
+      runAsIs witnessHeadInChannels true 32 32 = .err .runtime ∧
+      (match constructAsIs witnessHeadInChannels with
        | .ok k => k.headIn == [19] && k.built.dec.map (·.out) == [20, 13]
        | .err _ => false) = true ∧
-      (match constructFixed witnessHeadInChannels with
-       | .ok k => (match forward witnessHeadInChannels k true 32 32 with
-                   | .ok f => f.outs == [(3, 2, 2)]
-                   | .err _ => false)
-       | .err _ => false) = true := by
+      (match run witnessHeadInChannels true 32 32 with
+       | .ok f => f.outs == [(3, 2, 2)]
+       | .err _ => false) = true ∧
+      wellFormed witnessHeadInChannels = true := by
   decide +kernel
 
 end SleapVerif.C14
